@@ -685,13 +685,16 @@ class DAGRunConcurrentManager(DAGRunManagerLike):
                 # will be executed again and the function will unlock the descendants in the other branch.
                 to_unlock_descendants = False
 
-            logger.debug('Save the result "%s" for the node %s', result, node_id)
-            self._node_storage.set_node_result(node_id, result)
-
             # TODO: Needs to reorganize saving policy for artifact storage
             # A Recurrent marker and a failure kept as a value inside a OneOf candidate are not results of the node
             if not is_started_elsewhere and not isinstance(result, (Recurrent, BaseException)):
+                # The artifact is written before the result becomes visible: a consumer (or run() itself, for the
+                # output node) that sees the result while the store is still writing could end the run and have
+                # this task cancelled in the middle of the save
                 await self.ctx.save_node_result(node_id, result)
+
+            logger.debug('Save the result "%s" for the node %s', result, node_id)
+            self._node_storage.set_node_result(node_id, result)
 
         finally:
             if not to_unlock_descendants:
